@@ -174,7 +174,11 @@ def theorems_in(path):
     """[(name, line)] of theorems declared in a Lean file (namespace-qualified with VR./VG. when inside one)"""
     out = []
     ns = []
-    for i, line in enumerate(open(path), 1):
+    text = open(path).read()
+    # blank out block comments (keeping line numbers) and line comments: "theorem" inside a doc comment is not a declaration
+    text = re.sub(r"/-.*?-/", lambda m: "\n" * m.group(0).count("\n"), text, flags=re.S)
+    text = re.sub(r"--.*", "", text)
+    for i, line in enumerate(text.split("\n"), 1):
         m = re.match(r"\s*namespace\s+(\S+)", line)
         if m:
             ns.append(m.group(1))
